@@ -7,6 +7,7 @@ import (
 	"math/rand"
 	"net/netip"
 	"sort"
+	"strconv"
 	"strings"
 
 	"github.com/AdguardTeam/urlfilter/rules"
@@ -271,7 +272,7 @@ func (q *Req) Key() string {
 		sb.WriteString(q.ClientIP.String())
 	}
 	sb.WriteString("|" + strings.Join(q.Tags, ","))
-	sb.WriteString("|" + string(rune('0'+q.DNSType%64)))
+	sb.WriteString("|" + strconv.Itoa(int(q.DNSType)))
 
 	return sb.String()
 }
